@@ -132,8 +132,27 @@ func (c *Context) NewFloat(x *big.Float) *decimal.Decimal {
 
 // NewFloat64 returns a new *decimal.Decimal set to the (possibly rounded) value
 // of x.
-func (c *Context) NewFloat64(x float64) *decimal.Decimal {
-	return c.New().SetFloat64(x)
+//
+// If x is a NaN, NewFloat64 does not panic: like any other operation of the
+// context that generates a NaN, it records the error (see Err) and returns a
+// valid Decimal whose value is undefined.
+func (c *Context) NewFloat64(x float64) (r *decimal.Decimal) {
+	z := c.New()
+	if handleNaNs {
+		defer func() {
+			if err := recover(); err != nil {
+				e, ok := err.(decimal.ErrNaN)
+				if !ok {
+					panic(err)
+				}
+				if c.err == nil {
+					c.err = e
+				}
+				r = z
+			}
+		}()
+	}
+	return z.SetFloat64(x)
 }
 
 // NewRat returns a new *decimal.Decimal set to the (possibly rounded) value of
